@@ -403,9 +403,12 @@ pub fn generate(profile: &str, seed: u64, krate: &str) -> Program {
     }
     if profile == "witness" {
         g.d.cenums.push(CEnumDef { name: "W1".into(), repr: Some("u64"), variants: vec![("W1P".into(), 1), ("W1Q".into(), 9223372036854775808)] });
+        g.d.cenums.push(CEnumDef { name: "W2".into(), repr: None, variants: vec![("Only".into(), 0)] });
     }
     let witness: Vec<(Ty, String, T)> = vec![
         (Ty::CEnum(0), "W1::W1Q".into(), T::CVariant("W1Q".into())),
+        (Ty::CEnum(1), "W2::Only".into(), T::CVariant("Only".into())),
+        (Ty::Opt(Box::new(Ty::Char)), "None".into(), T::Variant("None".into(), vec![])),
         (Ty::CEnum(0), "W1::W1P".into(), T::CVariant("W1P".into())),
         (Ty::Enum(0), "W0::V1".into(), T::Variant("V1".into(), vec![])),
         (Ty::Enum(0), "W0::V0(7)".into(), T::Variant("V0".into(), vec![("__0".into(), T::Num("7".into()))])),
